@@ -579,7 +579,7 @@ def oracle_run(job, lines):
     fails = []
     stats = {"solutions": 0, "stored": 0, "unstored": 0, "approx": 0, "optimized": 0, "snapshots": 0, "solves": 0,
              "mixed_sets": 0, "stored_worse": 0, "ended": False, "endpoint_mismatch": 0, "maxsols": 0, "stored_equal": 0,
-             "stored_inf_deferred": 0, "approx_stored": 0, "clears": 0, "regress_after_clear": 0, "approx_only_solves": 0}
+             "stored_inf_deferred": 0, "approx_stored": 0, "clears": 0, "planner_clears": 0, "regress_after_clear": 0, "approx_only_solves": 0}
     if not lines or not lines[0].startswith("run "):
         return [("crash", "no output from the run")], stats, []
     hdr = parse_flags(lines[0])
@@ -595,6 +595,9 @@ def oracle_run(job, lines):
             continue
         if ln.startswith("error "):
             fails.append(("exception", ln))
+            continue
+        if ln.startswith("plannerclear "):
+            stats["planner_clears"] += 1     # planner->clear(): the problem definition keeps what it has
             continue
         if ln.startswith("clear "):
             # the user dropped all solutions (clearSolutionPaths()); indices restart at 0
@@ -729,9 +732,9 @@ def make_jobs(ck, rng):
     nrep = 1 if ck.tier == "quick" else 6
     g_small = f2bits(0.05)
 
-    def job(planner, obj, field, thr, env, dim, seed, evals, solves, gthr, clear=0):
+    def job(planner, obj, field, thr, env, dim, seed, evals, solves, gthr, clear=0, hist=None):
         jobs.append({"planner": planner, "obj": obj, "field": field, "thr": thr, "env": env, "dim": dim, "seed": seed, "evals": evals,
-                     "solves": solves, "gthr": gthr, "clear": clear})
+                     "solves": solves, "gthr": gthr, "clear": clear, "hist": hist})
     for rep in range(nrep):
         for planner, (evals, general) in PLANNERS.items():
             r = rng.fork("job-%s-%d" % (planner, rep))
@@ -749,6 +752,14 @@ def make_jobs(ck, rng):
             job(planner, "len", 0, "def", 5, r.choice([2, 2, 3]), r.range(1, 10 ** 6), max(evals // 2, 800), 2, g_small, r.below(2))
             job(planner, "len", 0, r.choice(["def", "inf"]), r.choice([2, 3]), 2, r.range(1, 10 ** 6), r.choice([40, 80, 150]) * (10 if evals >= 20000 else 1),
                 2, f2bits(0.02), 0)
+            # planner->clear() histories (nothing calls setup() again explicitly): solve, clear()+clearSolutionPaths(), solve
+            # (SimpleSetup::clear() style); solve, continued solve, clear()+clearSolutionPaths(), solve; solve, planner->clear()
+            # only (the problem definition keeps the old solutions, so old and new ones are ranked together), solve
+            ev3 = max(evals // 3, 400)
+            job(planner, "len", 0, r.choice(["def", "inf"]), r.choice([0, 1, 4]), 2, r.range(1, 10 ** 6), ev3, 2, g_small, hist="s")
+            job(planner, "len", 0, "def", r.choice([0, 1, 3]), 2, r.range(1, 10 ** 6), ev3, 3, g_small, hist="cs")
+            job(planner, "len" if not general else r.choice(["len", "sci"]), 1, r.choice(["def", f2bits(2.0)]), r.choice([0, 1, 4]), 2,
+                r.range(1, 10 ** 6), ev3, 2, g_small, hist="k")
             # two goal states, the worse one listed first (env 7), continued solves with and without clearSolutionPaths()
             job(planner, "len" if not general else r.choice(["len", "sci"]), 0, "def", 7, 2, r.range(1, 10 ** 6), max(evals // 3, 500), 3, g_small, rep % 2 if nrep > 1 else r.below(2))
             if general:
@@ -767,14 +778,14 @@ def make_jobs(ck, rng):
                 # the anytime pattern of tests/geometric/2d/*_optimize: many short slices of
                 # `clearSolutionPaths(); solve()`, two goal states, the better one behind a narrow window (env 6),
                 # an objective without admissible heuristic (unit state-cost integral: nothing is pruned)
-                job(planner, "sci", 0, "def", 6, 2, r.range(1, 10 ** 6), 500, 40 if ck.tier == "quick" else 80, f2bits(0.01), 1)
+                job(planner, "sci", 0, "def", 6, 2, r.range(1, 10 ** 6), 500, 30 if ck.tier == "quick" else 80, f2bits(0.01), 1)
                 job(planner, "len", 0, "def", 6, 2, r.range(1, 10 ** 6), 500, 25, f2bits(0.01), 1)
     return jobs
 
 
 def job_line(j):
-    return "run %s %s %d %s %d %d %d %d %d %s %d" % (j["planner"], j["obj"], j["field"], j["thr"], j["env"], j["dim"], j["seed"], j["evals"],
-                                                      j["solves"], j["gthr"], j.get("clear", 0))
+    return "run %s %s %d %s %d %d %d %d %d %s %s" % (j["planner"], j["obj"], j["field"], j["thr"], j["env"], j["dim"], j["seed"], j["evals"],
+                                                      j["solves"], j["gthr"], j.get("hist") or str(j.get("clear", 0)))
 
 
 RUN_ENV = {"ASAN_OPTIONS": "detect_leaks=0:abort_on_error=0:exitcode=99"}   # planner leaks are not C04's subject
@@ -805,6 +816,8 @@ def judge_runs(ck, hbin, jobs):
         ck.count("run-env:%d" % job["env"])
         if job.get("clear"):
             ck.count("run-with-clearSolutionPaths")
+        if job.get("hist"):
+            ck.count("run-history:" + job["hist"])
         if out is None:
             ck.count("run-timeout:" + job["planner"])
             ck.notes.append("run timed out (no verdict): " + job_line(job))
@@ -813,7 +826,7 @@ def judge_runs(ck, hbin, jobs):
         fails, stats, orders = oracle_run(job, out)
         ck.case(job_line(job), stats["solutions"] >= 1)
         for k in ("solutions", "stored", "unstored", "approx", "optimized", "snapshots", "solves", "mixed_sets", "stored_worse", "endpoint_mismatch",
-                  "stored_equal", "stored_inf_deferred", "approx_stored", "clears", "regress_after_clear", "approx_only_solves"):
+                  "stored_equal", "stored_inf_deferred", "approx_stored", "clears", "planner_clears", "regress_after_clear", "approx_only_solves"):
             ck.count("run-" + k, stats[k])
         if stats["solutions"] == 0:
             ck.count("run-nosolution:" + job["planner"])
